@@ -224,6 +224,67 @@ def operand_integrity(chk, recs, fixtures, names, rng, n):
         chk.nontriv(("reuse", i))
 
 
+def extremes(chk, seed):
+    """The same arithmetic at the edges: scalars of very small and very large magnitude (a coefficient of 1e-9 is
+    not zero), numpy scalars, and batches far longer than any block an implementation may cut them into - with a
+    leaf (SWAP) whose value on a row depends on the neighbouring rows of the batch it is GIVEN, so that a composite
+    must hand every leaf the whole batch."""
+    import numpy as np
+    import torch
+    import obsexpr_replay as R
+    from qucumber.observables import SigmaZ, SigmaX, SigmaY, NeighbourInteraction, SWAP
+    leaves = {"Z": SigmaZ, "X": SigmaX, "Y": SigmaY, "N": lambda: NeighbourInteraction(periodic_bcs=True, c=1), "S": lambda: SWAP([0])}
+    T = lambda *a: a  # noqa: E731
+    trees = [
+        T("mul", 1e9, T("mul", 1e-9, "Z")), T("add", T("mul", 1e12, T("sub", T("mul", 3e-12, "X"), T("mul", 1e-12, "Z"))), 1),
+        T("mul", T("mul", "Z", 1e-9), 1e9), T("mul", T("mul", np.float64(1e-10), "X"), 1e10),
+        T("sub", T("mul", -1e-8, "N"), T("mul", "Y", 5e-9)), T("mul", 1e-300, T("mul", "Z", 1e300)),
+        T("add", "S", 1), T("sub", 2.5, "S"), T("add", T("sub", T("neg", "N"), T("mul", 3, "X")), T("mul", 0.5, "S")),
+        T("sub", T("add", "S", "Z"), T("mul", np.float64(2.0), "S")),
+    ]
+
+    def build(t, objs):
+        if isinstance(t, str):
+            return objs[t]
+        if not isinstance(t, tuple):
+            return t
+        a = [build(x, objs) for x in t[1:]]
+        return {"mul": lambda: a[0] * a[1], "add": lambda: a[0] + a[1], "sub": lambda: a[0] - a[1], "neg": lambda: -a[0]}[t[0]]()
+
+    def value(t, vals):
+        if isinstance(t, str):
+            return vals[t]
+        if not isinstance(t, tuple):
+            return float(t)
+        a = [value(x, vals) for x in t[1:]]
+        return {"mul": lambda: a[0] * a[1], "add": lambda: a[0] + a[1], "sub": lambda: a[0] - a[1], "neg": lambda: -a[0]}[t[0]]()
+
+    rng = random.Random(seed + 5)
+    for kind in ("positive", "complex", "density"):
+        st = R.make_state(kind, 3, 2, 2, rng.randrange(10 ** 6))
+        for rows in (7, 1025, 2500):
+            g = torch.Generator().manual_seed(rng.randrange(10 ** 6))
+            batch = torch.randint(0, 2, (rows, 3), generator=g).to(torch.double)
+            vals = {n: mk().apply(st, batch.clone()).detach().numpy().astype(np.float64) for n, mk in leaves.items()}
+            for t in trees:
+                if rows > 7 and "S" not in repr(t):
+                    continue
+                objs = {n: mk() for n, mk in leaves.items()}
+                obs = build(t, objs)
+                before = batch.clone()
+                got = obs.apply(st, batch).detach().numpy().astype(np.float64)
+                want = value(t, vals)
+                chk.evaluations += 1
+                scale = max(1.0, float(np.max(np.abs(want))))
+                if got.shape != want.shape or np.max(np.abs(got - want)) > 1e-12 * scale or not torch.equal(batch, before):
+                    w = int(np.argmax(np.abs(got - want))) if got.shape == want.shape else -1
+                    chk.violation("extremes:%s" % ("long-batch" if rows > 7 else "scalar-magnitude"),
+                                  dict(state=kind, rows=rows, expression=repr(t), worst_row=w,
+                                       got=float(got[w]) if w >= 0 else None, expected=float(want[w]) if w >= 0 else None))
+                    break
+        chk.nontriv(("extremes", kind))
+
+
 def spec_controls(chk, names, variants):
     """Seeded faults inside the specification's model of the overloads: TLC must find them."""
     for v, inv in variants:
@@ -333,6 +394,7 @@ def run(tier, seed):
                                "replays (symmetric alternative, values agree), e.g. %s" % (len(drift), d["expr"]))
 
     operand_integrity(chk, small, fx3, names3, rng, 120 if quick else 1500)
+    extremes(chk, seed)
 
     # ---- negative controls (they presuppose a baseline that holds) -------------------
     if chk.violations:
